@@ -79,4 +79,7 @@ theorem exec_hset2 (r : Redis) (k f1 v1 f2 v2 : String) :
           pure (.int (([f1, f2].eraseDups.filter (fun x => (hlookup h x).isNone)).length : Nat),
                 putHash r k (hset1 (hset1 h f1 v1) f2 v2))) := rfl
 
+theorem exec_del1 (r : Redis) (k : String) :
+    exec r "del" [k] = pure (.int (([k].eraseDups.filter (fun x => (r.db x).isSome)).length : Nat), r.put k none) := rfl
+
 end CentrifugeVerif.LuaRedis
